@@ -79,7 +79,7 @@ def last_step_for(rng, cur, mode):
         if r < 0.45 and cur:
             return ["k", rng.choice(list(cur.keys()))]
         if r < 0.8:
-            return ["k", rng.choice(gen.KEYS + ["new1", "new2"])]
+            return ["k", rng.choice(gen.KEYS + ["new1", "new2", ""])]
         if r < 0.88:
             return ["i", rng.choice([0, 1, -1])]
     elif isinstance(cur, list):
@@ -123,6 +123,16 @@ def target_path(rng, doc, fancy=0.25):
         cur = None
     elif rng.random() < 0.1:
         steps = steps + [["rec"]]       # a recursive parent part: its first match is the node it starts from
+        if rng.random() < 0.3:
+            steps = steps + [["k", ""]]  # … followed by the empty member name (renders like the recursive step itself)
+    elif rng.random() < 0.1 and isinstance(cur, (dict, list)):
+        # a detour through the parent part: down two levels, up, through a filter, up again — back at the same node
+        kids = [(k, v) for k, v in (cur.items() if isinstance(cur, dict) else enumerate(cur)) if isinstance(v, (dict, list)) and v]
+        if kids:
+            k1, v1 = rng.choice(kids)
+            k2 = rng.choice(list(v1.keys()) if isinstance(v1, dict) else list(range(len(v1))))
+            nm = lambda k: ["k", k] if isinstance(k, str) else ["i", k]
+            steps = steps + [nm(k1), nm(k2), ["par"], ["f", rng.choice([["all", []], ["not", ["p", [["k", "nope"]]], []]])], ["par"]]
     last = last_step_for(rng, cur, "ok")
     if last[0] == "rec" and steps and steps[-1][0] == "rec":
         last = ["wc"]        # `rec.rec` is rejected when the expression is built
